@@ -75,3 +75,92 @@ def t0_derivative_probe(ctx):
         ctx.violation("path/t0-derivative-of-undifferentiated",
                       {"spec": s, "X": [str(x) for x in X], "f_impl": o["gf"][0][1], "f_spec": spec_f, "der_at_t0": slope},
                       what="path objective at t0 ignores the history slope of der(u0) (der_at gives %g)" % slope)
+
+
+# ---- the objective value reported after a solve is the objective of the returned trajectories -----------------
+def reported_objective(ctx):
+    """real solves - converged, and stopped early on an iteration limit, also a second optimize() on the same
+    object: objective_value must be nlp f at solver_output every time"""
+    import os
+    import casadi as ca
+    import numpy as np
+    from .. import problems
+    rng = ctx.rng
+    done = 0
+    for _ in range(ctx.n(30, 600)):
+        if done >= ctx.n(6, 150):
+            break
+        s = tr.gen_spec(rng, {"objective": True, "path": False, "history": False, "bounds": True, "own_grid": False})
+        if s["states"] or not s.get("objective"):
+            continue                       # algebraic-only models (NumPy-2 seed issue with states in this sandbox)
+        # a strictly convex objective so that the solve is well posed
+        coll = s["algebraics"] + s["controls"]
+        n = len(s["times"])
+        for m in range(s["ensemble_size"]):
+            e = s["objective"][m]
+            for v in coll:
+                for k in range(n):
+                    e = ["+", e, ["*", ["-", ["at", v, k], ["c", str(rng.randint(-3, 3))]], ["-", ["at", v, k], ["c", "1"]]]]
+            s["objective"][m] = e
+        Base = problems.make_base(s)
+        limit = {"it": None}
+
+        class P(Base):
+            def solver_options(self):
+                o = super().solver_options()
+                o["ipopt"] = {"print_level": 0, "tol": 1e-9}
+                if limit["it"] is not None:
+                    o["ipopt"]["max_iter"] = limit["it"]
+                o["print_time"] = False
+                return o
+
+            def seed(self, m):
+                sd = super().seed(m)
+                if limit["it"] is not None:
+                    from rtctools.optimization.timeseries import Timeseries
+                    for v in coll:
+                        sd[v] = Timeseries(self.times(v), np.full(len(self.times(v)), 7.0))
+                return sd
+        fd = os.open(os.devnull, os.O_WRONLY)
+        so, se = os.dup(1), os.dup(2)
+        os.dup2(fd, 1)
+        os.dup2(fd, 2)
+        try:
+            p = P()
+            obs = []
+            for it in (None, 1, None):
+                limit["it"] = it
+                ok = p.optimize()
+                d, lbx, ubx, lbg, ubg, x0, nlp = p.transcribe()
+                f = float(ca.Function("f", [nlp["x"]], [nlp["f"]])(p.solver_output))
+                obs.append({"max_iter": it, "success": bool(ok), "objective_value": float(p.objective_value), "f_at_solver_output": f})
+        except Exception as e:  # noqa: BLE001
+            obs = {"error": "%s: %s" % (type(e).__name__, str(e)[:160])}
+        finally:
+            os.dup2(so, 1)
+            os.dup2(se, 2)
+            os.close(fd)
+        if isinstance(obs, dict):
+            ctx.count("reported_objective_exception")
+            continue
+        done += 1
+        ctx.runtime_samples += 1
+        ctx.case_done(core.fingerprint(["reported", len(coll), n, s["ensemble_size"], [o["success"] for o in obs]]), not all(o["success"] for o in obs))
+        ctx.count("reported_objective_runs")
+        for o in obs:
+            if not o["success"]:
+                ctx.count("reported_objective_after_unsuccessful_solve")
+            if abs(o["objective_value"] - o["f_at_solver_output"]) > 1e-8 * (1 + abs(o["f_at_solver_output"])):
+                ctx.violation("objective/reported-value", {"spec": s, "runs": obs},
+                              what="objective_value %r after a solve (max_iter %s, success %s) is not the objective %r of the returned point" % (
+                                  o["objective_value"], o["max_iter"], o["success"], o["f_at_solver_output"]))
+                break
+
+
+_run_core = run
+
+
+def run(ctx):  # noqa: F811
+    _run_core(ctx)
+    if not trcheck.replay_spec():
+        reported_objective(ctx)
